@@ -329,6 +329,26 @@ static void runCase(const std::vector<std::string>& lines) {
             }
             fprintf(g_out, "%s\n", out.c_str());
         }
+        else if (cmd == "mk.self") {   // containers of k elements built one by one, then element j appended to its own container (C13: the argument aliases the container)
+            size_t k = tk.u64(); size_t j = tk.u64(); std::string how = tk.str();
+            Points pts = how == "sized" ? Points(k) : Points(); SubFrame sf; Analogs an;
+            for (size_t i = 0; i < k; ++i) {
+                Point p; p.name("e" + std::to_string(i)); p.x((float)i);
+                if (how == "sized") pts.point(p, i); else pts.point(p);
+                Channel ch; ch.name("e" + std::to_string(i)); ch.data((float)i); sf.channel(ch);
+                SubFrame one; one.channel(ch); an.subframe(one);
+            }
+            if (how == "copied") { Points q(pts); pts = q; SubFrame t(sf); sf = t; Analogs b(an); an = b; }
+            GUARD(
+                pts.point(pts.point(j)); sf.channel(sf.channel(j)); an.subframe(an.subframe(j));
+                std::string out = "ok";
+                for (size_t i = 0; i < pts.nbPoints(); ++i) out += " " + u((size_t)pts.point(i).x());
+                out += " |";
+                for (size_t i = 0; i < sf.nbChannels(); ++i) out += " " + u((size_t)sf.channel(i).data());
+                out += " |";
+                for (size_t i = 0; i < an.nbSubframes(); ++i) out += " " + u((size_t)an.subframe(i).channel(0).data());
+                fprintf(g_out, "%s\n", out.c_str()));
+        }
         // ---- byte assembly (C12) ----
         else if (cmd == "h2u" || cmd == "h2i") {
             std::string b = tk.str(); Probe pr;
